@@ -335,6 +335,9 @@ def run_trace(case, R):
                     R.check('C08.estep', bool((np.asarray(qf) == 1).all()), f'estep/{kind}/initial-quadratic-form', 'first M-step must use quadratic forms equal to one')
                 continue
             prev = ev[i - 1]['model']
+            if (np.asarray(prev.weight, dtype=float) == 0).any():
+                R.undecided('C08.estep', 'preceding model has zero prior weights (frame-wise tied weights from a hard start)')
+                continue
             if builtin:
                 R.undecided('C08.estep', 'built-in spatial/spectral alignment (covered by C14)')
                 continue
